@@ -9,6 +9,8 @@ import (
 	"sort"
 	"strings"
 
+	"golang.org/x/tools/go/cfg"
+
 	"verif/checker/core"
 )
 
@@ -26,6 +28,10 @@ type Config struct {
 	WatchCall func(fn *types.Func, call *ast.CallExpr) string
 	// WatchDyn: label for calls through function values.
 	WatchDyn func(info *types.Info, call *ast.CallExpr) string
+	// WatchBuiltin: label for builtin calls (close, delete, ...) to record with their argument paths.
+	WatchBuiltin func(name string, argPaths []string) string
+	// WatchRecv: label for channel receives, given the channel's access path.
+	WatchRecv func(path string) string
 	// Pure: same-module callees that do not modify tracked state (no havoc).
 	Pure     func(fn *types.Func) bool
 	MaxPaths int
@@ -249,7 +255,7 @@ func (in *Interp) runGraph(g *core.Graph, st *State, sig *types.Signature) []exi
 	type item struct {
 		n       int
 		st      *State
-		visited map[string]bool
+		visited *visList
 		defers  []*ast.DeferStmt
 	}
 	// named results start at zero
@@ -262,7 +268,7 @@ func (in *Interp) runGraph(g *core.Graph, st *State, sig *types.Signature) []exi
 	}
 	aux := auxOf(g)
 	var exits []exit
-	work := []item{{g.Entry, st, map[string]bool{}, nil}}
+	work := []item{{g.Entry, st, nil, nil}}
 	finish := func(it item, results []Val, pan string) {
 		// run defers (late-evaluated) in reverse order
 		sts := []*State{it.st}
@@ -308,16 +314,19 @@ func (in *Interp) runGraph(g *core.Graph, st *State, sig *types.Signature) []exi
 			exits = append(exits, exit{st: it.st, panic: "explicit"})
 			continue
 		}
-		// loop cut: same node with same abstract state on this path
-		key := fmt.Sprintf("%d|%s", it.n, stateKey(it.st))
-		if it.visited[key] {
-			continue
+		// loop cut: same block head with same abstract state on this path
+		vis := it.visited
+		if node.Kind == core.NHead && isLoopBlock(node) {
+			key := fmt.Sprintf("%d|%s", it.n, stateKey(it.st))
+			if vis.has(key) {
+				continue
+			}
+			if vis.count(it.n) > 64 {
+				in.problem("loop in %s does not reach a repeated abstract state within 64 iterations", g.Owner.Name())
+				continue
+			}
+			vis = &visList{key: key, node: it.n, parent: vis}
 		}
-		vis := make(map[string]bool, len(it.visited)+1)
-		for k := range it.visited {
-			vis[k] = true
-		}
-		vis[key] = true
 
 		// execute the node
 		var outs []vs
@@ -446,6 +455,44 @@ func (in *Interp) runGraph(g *core.Graph, st *State, sig *types.Signature) []exi
 		}
 	}
 	return exits
+}
+
+// visList is a persistent (shared-tail) list of visited loop-head states.
+type visList struct {
+	key    string
+	node   int
+	parent *visList
+}
+
+func (v *visList) count(n int) int {
+	c := 0
+	for ; v != nil; v = v.parent {
+		if v.node == n {
+			c++
+		}
+	}
+	return c
+}
+
+func (v *visList) has(k string) bool {
+	for ; v != nil; v = v.parent {
+		if v.key == k {
+			return true
+		}
+	}
+	return false
+}
+
+// isLoopBlock: block heads that can be re-entered on one path (loop heads, bodies, labels).
+func isLoopBlock(n *core.Node) bool {
+	if n.Block == nil {
+		return false
+	}
+	switch n.Block.Kind {
+	case cfg.KindForBody, cfg.KindForLoop, cfg.KindForPost, cfg.KindRangeLoop, cfg.KindRangeBody, cfg.KindLabel:
+		return true
+	}
+	return false
 }
 
 type panicVal string
@@ -1001,7 +1048,16 @@ func (in *Interp) evalExpr(g *core.Graph, e ast.Expr, st *State) []vs {
 		case token.ARROW:
 			var out []vs
 			for _, b := range in.evalExpr(g, x.X, st) {
-				out = append(out, vs{Top{}, b.st})
+				s2 := b.st
+				if in.cfg.WatchRecv != nil {
+					if r, ok := b.v.(Ref); ok {
+						if label := in.cfg.WatchRecv(r.Path); label != "" {
+							s2 = s2.clone()
+							s2.Emit(label)
+						}
+					}
+				}
+				out = append(out, vs{Top{}, s2})
 			}
 			return out
 		}
